@@ -162,7 +162,7 @@ func runEdDSA(c *mon.Ctx, d *sigs.EdDSA) {
 			if h.name == "sha512" {
 				ms = ms[:3]
 			}
-			if ki >= 2 && !c.Thorough() { // crafted keys: a subset of the messages
+			if ki >= 1 && !c.Thorough() { // quick: the full message list for the first key, a subset for the others
 				ms = []msgCase{ms[0], ms[len(ms)/2], ms[len(ms)-1]}
 			}
 			for _, m := range ms {
@@ -220,7 +220,7 @@ func runEdDSA(c *mon.Ctx, d *sigs.EdDSA) {
 	}
 	for si, i := range sel {
 		t := triples[i]
-		allBits := c.Thorough() || si == 0
+		allBits := si == 0 || c.Thorough() && si < 4
 		e.tamper(t.k, t.h, t.m, t.sig, other, allBits)
 	}
 
@@ -233,7 +233,7 @@ func runEdDSA(c *mon.Ctx, d *sigs.EdDSA) {
 			m = msgCase{"40B", e.rng.Bytes(40)}
 		}
 		e.crafted(keys[0], h, m)
-		e.arbitrary(keys[0], h, m, c.Pick(120, 1500))
+		e.arbitrary(keys[0], h, m, c.Pick(72, 1500))
 	}
 	e.pubKeyDecoding(keys[0])
 }
